@@ -133,6 +133,7 @@ def yaml_decl(c):
         ps.append(s)
     r = "T" if c["result"] == "T" else K.RESULTS[c["result"]]["yaml"]
     d = {"decl": "%s %s(%s)%s" % (r, c["name"], ", ".join(ps), "" if c["result"] == "T" else K.RESULTS[c["result"]].get("attrs", ""))}
+    d.update(c.get("yaml_extra") or {})
     if c.get("template"):
         d["decl"] = "template<typename T> " + d["decl"]
         d["cxx_template"] = [{"instantiation": "<%s>" % t} for t in c["template"]]
